@@ -76,6 +76,11 @@ def run(ctx):
     for i in range(ctx.budget(250, 4000)):
         origin, d = trees.mixed_tree(ctx, rng, p_parsed=0.5, names=False, none_items=0.0, wild=0.0,
                                      ops=["AndOperation", "OrOperation", "UnknownOperation"])
+        if rng.random() < 0.2:
+            # two structurally identical operands (`(foo OR bar) AND (foo OR bar)`): they are two elements, with two
+            # names and two paths (seeded C16-G: the position of a child looked up with `.index()`, which compares)
+            d = trees.repeat_a_sibling(rng, d)
+            ctx.count("trees with a repeated operand")
         if any(n["c"] == "BoolOperation" or (n["c"].endswith("Operation") and not n["ch"]) or n["c"] == "NoneItem"
                for _, n in common.tree_nodes(d)):
             ctx.count("skipped: bool / empty operation")
